@@ -26,7 +26,11 @@ EXPLANATION = (
     "contracted indices (kappa = |G| h: the documented normalisation; deltas resolved); derivative contracted with a "
     "variation of the tensor's symmetry equals the first-order change. R14c: target and repeated indices on the tensor "
     "(deltas, fresh lowest unused names of the same space and spin, provided target indices extended by the tensor "
-    "indices). R14d: exponents (lowered one by one, recursion until none is left, exponents < 1 refused; derivative "
+    "indices; if an index of the removed tensor still occurs more than once in the remainder - another occurrence or a "
+    "power of the tensor, a spectator on the same indices - the Einstein convention would take it for contracted: the "
+    "target indices of the block expression are then given explicitly (targets of the term + tensor indices), "
+    "contributions with explicit and implicit targets add up in one block; all obligations of such scenarios are "
+    "reported under R14c with the key prefix 'implicit targets' (F28)). R14d: exponents (lowered one by one, recursion until none is left, exponents < 1 refused; derivative "
     "e x^(e-1) with the base re-inserted). R14e: several occurrences (sorted block-key tuples, product rule), several "
     "terms (accumulation per key), terms without the tensor under ('none',), spin block keys, input guards, "
     "assumptions preserved, the input expression unchanged, no mutable Expr shared between keys. R14f: call history: "
@@ -52,9 +56,6 @@ ASSUMPTIONS = [
     "kappa_1 ... kappa_n x term); for expressions of several terms the closed formula is compared; derivative with a "
     "target index on the tensor: closed formula only",
     "which of several occurrences is removed first is taken from the model's object order (canonical order of factors)",
-    "remove_tensor on an even power of a tensor that is antisymmetric under a permutation, next to a spectator on the same "
-    "indices (e.g. -1/4 (V^ij_ab)^2 D^ij_ab) or with exponent >= 4, returns vanishing blocks (scenarios marked suspect: "
-    "behaviour pinned by the closed formula, the failed round trip is a note, not a violation)",
 ]
 
 RM = "simplify:remove_tensor"
@@ -203,13 +204,37 @@ class Removal:
         for seq, chi in self.group:
             B = B + Rp.permute(seq) * chi
         self.value = B
-        self.ptarget = None if ptarget is None else tuple(sorted(set(ptarget) | set(I2), key=talg.ix_key))
+        # target indices of the block expression: the term's targets and the tensor indices.  They are given explicitly if
+        # they were given for the input, or if the Einstein convention cannot see them: a tensor index that still occurs
+        # more than once in the remainder (another occurrence / power of the tensor, a spectator on the same indices)
+        # would be taken for a contracted index
+        (m2, _), = R.t.items()
+        cnt = dict(talg.idx_counter(m2))
+        self.needs_explicit = ptarget is None and any(cnt.get(s_, 0) >= 1 for s_ in I2)
+        if ptarget is not None:
+            self.ptarget = tuple(sorted(set(ptarget) | set(I2), key=talg.ix_key))
+        elif self.needs_explicit:
+            self.ptarget = tuple(sorted(set(talg.einstein_target(m2)) | set(I2), key=talg.ix_key))
+        else:
+            self.ptarget = None
         # kappa: B contracted with D' over all index values = kappa * (R D)
         self.kappa = h * Poly.num(len(self.group)) * Poly.num(s)
 
 
 class Expected(Exception):
     """The reference behaviour is an exception of this class name."""
+
+
+def _accumulate(out, key, contrib, pt):
+    """Contributions to one block: explicit target indices win over the Einstein convention (they describe the same
+    indices); two different explicit sets cannot be added."""
+    if key not in out:
+        out[key] = (contrib, pt)
+        return
+    have = out[key][1]
+    if have != pt and have is not None and pt is not None:
+        raise Expected("TypeError")
+    out[key] = (out[key][0] + contrib, have if have is not None else pt)
 
 
 def ref_process(term, ptarget, t_name, adc, mode, trace=None):
@@ -242,13 +267,7 @@ def ref_process(term, ptarget, t_name, adc, mode, trace=None):
     out = {}
     for t in (rm.value.terms() or [Poly()]):        # the zero expression has one term
         for blocks, (contrib, pt) in ref_process(t, rm.ptarget, t_name, adc, mode, trace).items():
-            key = tuple(sorted([block] + list(blocks)))
-            if key in out:
-                if out[key][1] != pt:
-                    raise Expected("TypeError")
-                out[key] = (out[key][0] + contrib, pt)
-            else:
-                out[key] = (contrib, pt)
+            _accumulate(out, tuple(sorted([block] + list(blocks))), contrib, pt)
     return out
 
 
@@ -256,12 +275,7 @@ def ref_remove_tensor(expr, ptarget, t_name, adc, mode, trace=None):
     out = {}
     for t in (expr.terms() or [Poly()]):
         for key, (contrib, pt) in ref_process(t, ptarget, t_name, adc, mode, trace).items():
-            if key in out:
-                if out[key][1] != pt:
-                    raise Expected("TypeError")
-                out[key] = (out[key][0] + contrib, pt)
-            else:
-                out[key] = (contrib, pt)
+            _accumulate(out, key, contrib, pt)
     return out
 
 
@@ -302,12 +316,8 @@ def ref_derivative(expr, ptarget, t_name, trace=None):
 # scenarios
 
 class Sc:
-    def __init__(self, sid, rule, what, expr, t, target=None, adc=("X", "Y"), mode="lowest", args=None, roundtrip=True,
-                 suspect=False):
+    def __init__(self, sid, rule, what, expr, t, target=None, adc=("X", "Y"), mode="lowest", args=None, roundtrip=True):
         self.id, self.rule, self.what, self.expr, self.t = sid, rule, what, expr, t
-        # suspect: the library's behaviour on this input is pinned by the closed formula, but the re-contraction does not
-        # reproduce the input (reported as a note for the maintainers of known_findings, not as a violation)
-        self.suspect = suspect
         self.target = None if target is None else tuple(sorted(_idx(*target) if isinstance(target, tuple) else _idx(target),
                                                                 key=talg.ix_key))
         self.adc, self.mode, self.args, self.roundtrip = adc, mode, args, roundtrip
@@ -360,10 +370,17 @@ def remove_scenarios():
     a(Sc("cube", "R14d", "(f^k_c)^3 with bra-ket symmetry", A("f", "k", "c", 1) ** 3, "f"))
     a(Sc("square and single", "R14d", "(d^k_c)^2 d^l_e w_le", A("d", "k", "c") ** 2 * A("d", "l", "e") * N("w", "le"), "d"))
     a(Sc("antisym square", "R14d", "-1/4 (V^kl_cd)^2", num(Fraction(-1, 4)) * A("V", "kl", "cd") ** 2, "V"))
-    a(Sc("antisym square spectator", "R14d", "(V^ij_ab)^2 w_ijab", A("V", "ij", "ab") ** 2 * N("w", "ijab"), "V", suspect=True))
+    a(Sc("antisym square spectator", "R14d", "(V^ij_ab)^2 w_ijab", A("V", "ij", "ab") ** 2 * N("w", "ijab"), "V"))
     a(Sc("antisym square denominators", "R14d", "-1/4 (V^ij_ab)^2 D^ij_ab with a symmetric D", num(Fraction(-1, 4)) * A("V", "ij", "ab") ** 2
-         * A("D", "ij", "ab", 0, SY), "V", suspect=True))
-    a(Sc("antisym fourth", "R14d", "(t^kl_cd)^4 u_m p_m", A("t", "kl", "cd") ** 4 * N("u", "m") * N("p", "m"), "t", suspect=True))
+         * A("D", "ij", "ab", 0, SY), "V"))
+    a(Sc("antisym fourth", "R14d", "(t^kl_cd)^4 u_m p_m", A("t", "kl", "cd") ** 4 * N("u", "m") * N("p", "m"), "t"))
+    a(Sc("two spectators", "R14c", "V^ij_ab D^ij_ab w_ijab: one occurrence, two spectators on the tensor indices",
+         A("V", "ij", "ab") * A("D", "ij", "ab", 0, SY) * N("w", "ijab"), "V"))
+    a(Sc("mixed terms", "R14c", "V D w + V x: explicit and implicit target indices in one block",
+         A("V", "ij", "ab") * A("D", "ij", "ab", 0, SY) * N("w", "ijab") + A("V", "ij", "ab") * N("x", "ijab"), "V"))
+    a(Sc("two occurrences spectator", "R14c", "V^ij_ab V^ij_cd w_ijabcd", A("V", "ij", "ab") * A("V", "ij", "cd") * N("w", "ijabcd"), "V"))
+    a(Sc("square spectator provided", "R14c", "(V^kl_cd)^2 w_klcdia with explicit targets i, a",
+         A("V", "kl", "cd") ** 2 * N("w", "klcdia"), "V", target="ia"))
     a(Sc("inverse", "R14d", "exponent -1 refused", A("d", "k", "c") ** -1 * N("w", "kc"), "d", roundtrip=False))
     a(Sc("other power", "R14d", "powers of other tensors stay", A("d", "k", "c") * N("w", "kc") ** 2, "d"))
     # R14e: occurrences, terms, keys, guards
@@ -486,10 +503,29 @@ def _show(p, n=260):
     return s if len(s) <= n else s[:n] + " ..."
 
 
-def _compare(ctx, fn, label, sc, kind, val, want, is_deriv):
-    """Compares an evaluated result with the expected {key: (Poly, target)} / Expected exception."""
+def _forced(ctx, force):
+    """ctx whose violations are all reported under the rule ``force`` (satisfied obligations keep their rule)."""
+    if not force:
+        return ctx
+
+    class _Forced:
+        def __getattr__(self, a):
+            return getattr(ctx, a)
+
+        def bad(self, rule, node, reason, fn=None, key=None):
+            return ctx.bad(force, node, reason, fn, key)
+
+        def check(self, rule, node, cond, fact, reason, fn=None, key=None):
+            return ctx.check(rule if cond else force, node, cond, fact, reason, fn, key)
+    return _Forced()
+
+
+def _compare(ctx, fn, label, sc, kind, val, want, is_deriv, force=None, tag=""):
+    """Compares an evaluated result with the expected {key: (Poly, target)} / Expected exception.  ``force``: every
+    violation of this scenario is reported under that rule with ``tag`` in its key (one root cause, one finding)."""
+    ctx = _forced(ctx, force)
     rule = sc.rule
-    key = f"{label} {sc.id}"
+    key = f"{label} {tag}{sc.id}"
     prop_rule = "R14b" if is_deriv else "R14a"
     if isinstance(want, Expected):
         ok = kind == "raise" and val == str(want)
@@ -556,10 +592,15 @@ def _input_unchanged(ctx, fn, label, sc, rec, before):
               f"{_show(rec.attrs['val'], 120)}", key=f"{label} {sc.id} input")
 
 
+IMPLICIT = "implicit targets: "
+
+
 def check_remove(ctx, scenarios=None, guards=True, label=""):
     fn = ctx.model.fn(RM)
     n = 0
+    ctx0 = ctx
     for sc in (remove_scenarios() if scenarios is None else scenarios):
+        ctx = ctx0
         holder = {}
 
         def make(w, sc=sc, holder=holder):
@@ -572,7 +613,13 @@ def check_remove(ctx, scenarios=None, guards=True, label=""):
         except Expected as e:
             want = e
         n += 1
-        same = _compare(ctx, fn, "remove_tensor", sc, kind, val, want, False)
+        # scenarios in which an index of the removed tensor occurs more than once in the remainder: the Einstein convention
+        # does not see it as a target index of the block expression.  Whatever goes wrong there is one root cause:
+        # reported under R14c with a common key prefix
+        implicit = any(t[3].needs_explicit for t in trace)
+        force, tag = ("R14c", IMPLICIT) if implicit else (None, "")
+        ctx = _forced(ctx0, force)
+        same = _compare(ctx0, fn, "remove_tensor", sc, kind, val, want, False, force, tag)
         if kind == "return":
             _input_unchanged(ctx, fn, "remove_tensor", sc, holder["expr"], sc.expr)
         if isinstance(want, Expected) or kind != "return" or not isinstance(val, dict):
@@ -594,17 +641,11 @@ def check_remove(ctx, scenarios=None, guards=True, label=""):
                   f"(class, name, index groups, bra-ket symmetry kept)",
                   f"remove_tensor on {sc.what} ({_show(sc.expr, 120)}): the tensor rebuilt on the minimised indices is "
                   f"{[talg.show_factor(f) if f else '0' for f in got_f]} (constructor calls {built}); the removed tensor on these "
-                  f"indices is {[talg.show_factor(f) for f in want_f]}", key=f"remove_tensor {sc.id} rebuilt")
-        if sc.suspect and all(tmodel.kind(v) == "expr" and v.attrs["val"].is_zero() for v in val.values()):
-            ctx.note(f"SUSPECT remove_tensor on {sc.what} ({_show(sc.expr, 120)}) returns only vanishing blocks {sorted(val)}: after the "
-                     f"first occurrence is removed its indices still occur twice in the remainder, are taken for contracted "
-                     f"indices and the antisymmetrisation of the remaining even power cancels; the expression cannot be "
-                     f"recovered from the blocks")
-            continue
+                  f"indices is {[talg.show_factor(f) for f in want_f]}", key=f"remove_tensor {tag}{sc.id} rebuilt")
         if not sc.roundtrip or len(sc.expr.t) != 1 or not trace:
             continue
         blocks = [k for k in val if k != ("none",)]
-        if len(blocks) != 1:
+        if len(blocks) != 1 or tmodel.kind(val[blocks[0]]) != "expr":
             continue
         B = val[blocks[0]].attrs["val"]
         term = trace[0][0]
@@ -616,7 +657,7 @@ def check_remove(ctx, scenarios=None, guards=True, label=""):
                       f"remove_tensor [{sc.what}]: g(B) = chi(g) B for the {len(rm.group)} operations of {talg.show_factor(rm.tensor)}",
                       f"remove_tensor on {sc.what} ({_show(sc.expr, 120)}): the block expression {_show(B, 200)} is not "
                       f"{'anti' if bad and bad[0][1] < 0 else ''}symmetric under {bad[0][0] if bad else ''} although the removed tensor "
-                      f"block {talg.show_factor(rm.tensor)} is", key=f"remove_tensor {sc.id} symmetry")
+                      f"block {talg.show_factor(rm.tensor)} is", key=f"remove_tensor {tag}{sc.id} symmetry")
         # R14b (ii): contracting the block expression with the removed tensor blocks gives kappa times the original term
         n_occ = len(blocks[0])
         levels = []
@@ -636,12 +677,18 @@ def check_remove(ctx, scenarios=None, guards=True, label=""):
             lhs = lhs * Poly.factor(t)
             kappa = kappa * kp
         shown = " x ".join(talg.show_factor(t) for t, _ in levels)
-        eq, ca, cb = talg.contraction_equal(lhs, term * kappa, tg)
+        try:
+            eq, ca, cb = talg.contraction_equal(lhs, term * kappa, tg)
+        except ModelError as e:
+            if e.name != "ModelLimit":
+                raise
+            ctx.note(f"remove_tensor [{sc.id}]: round trip beyond the renaming bound, closed formula only")
+            continue
         ctx.check("R14b" if same else sc.rule, fn, eq,
                   f"remove_tensor [{sc.what}]: B x {shown} = {_show(kappa, 40)} x the original term",
                   f"remove_tensor on {sc.what} ({_show(sc.expr, 120)}): the block expression contracted with the tensor block(s) "
                   f"{shown} gives {_show(ca, 200)}; {_show(kappa, 40)} times the original term is {_show(cb, 200)} "
-                  f"(contracted indices renamed canonically, deltas resolved)", key=f"remove_tensor {sc.id} round trip")
+                  f"(contracted indices renamed canonically, deltas resolved)", key=f"remove_tensor {tag}{sc.id} round trip")
     ctx.floor("R14a", f"remove_tensor {label} scenarios evaluated".replace("  ", " "), n, 40)
     # input guards
     if guards and ctx.want("R14e"):
